@@ -156,6 +156,20 @@ Theorem activity_only_by_traffic : forall st s e,
 Proof. exact quiet_events_no_activity_l. Qed.
 Print Assumptions activity_only_by_traffic.
 
+(* in particular datagrams from the outside world are not activity: whatever an outside peer keeps sending to
+   the exit's ports, no entry of the node - the exit socket included - has its activity stamp advanced; only the
+   byte counter of that exit socket moves.  (So an abandoned circuit's exit socket is reclaimed on schedule.) *)
+Theorem outside_datagrams_never_refresh : forall st s cid len allowed ls,
+  no_activity s (fst (step_at st s (EOutside cid len allowed ls))).
+Proof. exact outside_no_activity_l. Qed.
+Print Assumptions outside_datagrams_never_refresh.
+
+Theorem outside_datagram_keeps_exit_stamp : forall st s cid len allowed ls e',
+  aget cid (exits (fst (step_at st s (EOutside cid len allowed ls)))) = Some e' ->
+  exists e, aget cid (exits s) = Some e /\ la (e_ro e') = la (e_ro e) /\ down (e_ro e') = down (e_ro e) + len.
+Proof. exact outside_exit_stamp_l. Qed.
+Print Assumptions outside_datagram_keeps_exit_stamp.
+
 (* once a node has dropped its entries for an id, encrypted cells that name the id die there: nothing is
    forwarded, answered or changed (this is what ends the traffic downstream of a reclaimed hop) *)
 Theorem unknown_id_is_dropped : forall st s src cid early len cr ls,
